@@ -36,11 +36,18 @@ def same_outcome(io, mo):
     return True
 
 
-def compare(c, src, impl, model, what='prog'):
-    """records a disagreement when model and implementation differ; returns True if they agree"""
+def compare(c, src, impl, model, what='prog', project=None, times=True):
+    """records a disagreement when model and implementation differ; returns True if they agree.
+    `project` maps a record's frame to the part of it the property at hand is about (so that a change
+    elsewhere in the frame is left to the property that owns it); `times=False` ignores timestamps."""
     ok = same_outcome(impl['outcome'], model['outcome'])
     if ok and impl['outcome'][0] == 'success':
-        ok = impl['file'] == model['file']
+        if project is None and times:
+            ok = impl['file'] == model['file']
+        else:
+            pj = project or (lambda f: f)
+            A, B = pcap_records(impl['file'] or b''), pcap_records(model['file'])
+            ok = len(A) == len(B) and all(pj(a[1]) == pj(b[1]) and (a[0] == b[0] or not times) for a, b in zip(A, B))
     if ok and impl['outcome'][0] == 'failure':
         ok = impl['file'] is None       # output removed on failure
     if not ok:
